@@ -3,6 +3,7 @@ callables), extraction of the callable description the Lean model needs (through
 library uses: inspect.signature / getfullargspec / getsource / ismethod), call generation, execution of the decorated
 callable and of its undecorated twin, canonical outcomes."""
 import sys, os, json, random, inspect, types, importlib.util, tempfile, shutil, asyncio, collections, collections.abc, typing, io, contextlib
+import re
 import _checker_common as K
 
 ANN_POOL = ['int', 'int', 'str', 'float', 'bool', 'List[int]', 'list[int]', 'Dict[str, int]', 'Optional[int]', 'Union[int, str]',
@@ -784,7 +785,7 @@ def env_for(P, ctxmode, src=''):
     that calls the pedantic wrapper - the calling module, or the generated module itself when a pass-through decorator sits above
     @pedantic; a name both bind means what the defining module says"""
     env = K.env_json()
-    through = '@passthru\n@pedantic' in src or '@passthru\n    @pedantic' in src
+    through = re.search(r'@passthru\n[ \t]*@pedantic', src) is not None      # at any indentation (methods, classes inside functions)
     caller = dict(K.CTX) if (P.callers.has_names(ctxmode) and not through) else {}      # 'loop': the event loop's frame binds none of them
     merged = {**caller, **MODULE_BOUND}
     merged.pop('Counter', None)
